@@ -40,6 +40,10 @@ type Call struct {
 	StallAfter int // >0: send only this many body bytes, then wait for Resume/close
 	resume     chan bool
 	Tag        string
+
+	// reference-register expectation recorded by the engine when the call was issued
+	Judged       bool
+	ExpectAccept bool
 }
 
 func (c *Call) String() string {
